@@ -1,15 +1,17 @@
 // Driver for C13 (values survive their stored text and JSON forms).
 //
 // Three streams, each driving the REAL code and doing two things per case:
+//
 //   - direct oracle: the round-trip equations of the property sentence evaluated on the implementation's own
 //     outputs (written here from the statement, independent of the Coq model);
+//
 //   - correspondence: inputs + what the implementation produced are written to cases_C13_*.v, where the Coq
 //     models (model/NumText.v, model/JsonText.v, model/DateText.v) are run on the same inputs (vm_compute).
 //
-//   numbers   (num.go)    types.ToXText / types.ToXNumber / operators.Equal / FieldValues.Parse
-//   datetimes (dates.go)  XDateTime/XDate/XTime Render + Format(env), ToXDateTime/ToXDate/ToXTime,
-//                         envs.DateTimeFromString/DateFromString/TimeFromString
-//   json      (json.go)   parse_json / json builtins (types.JSONToXValue, types.ToXJSON)
+//     numbers   (num.go)    types.ToXText / types.ToXNumber / operators.Equal / FieldValues.Parse
+//     datetimes (dates.go)  XDateTime/XDate/XTime Render + Format(env), ToXDateTime/ToXDate/ToXTime,
+//     envs.DateTimeFromString/DateFromString/TimeFromString
+//     json      (json.go)   parse_json / json builtins (types.JSONToXValue, types.ToXJSON)
 package main
 
 import (
